@@ -126,15 +126,15 @@ def carried_attrs(doc):
     ok = [True]
 
     def f(n, pos, parent, i):
-        if n.type.name == "image" and (n.attrs.get("alt") is not None or not isinstance(n.attrs.get("src"), str) or not n.attrs.get("src")
-                                       or not (n.attrs.get("title") is None or (isinstance(n.attrs.get("title"), str) and n.attrs["title"]))):
+        if n.type.name == "image" and (n.attrs.get("alt") is not None or not isinstance(n.attrs.get("src"), str)
+                                       or not (n.attrs.get("title") is None or isinstance(n.attrs.get("title"), str))):
             ok[0] = False
         if n.type.name == "ordered_list" and n.attrs.get("order") != 1:
             ok[0] = False
         if n.type.name == "heading" and n.attrs.get("level") not in (1, 2, 3, 4, 5, 6):
             ok[0] = False
         for m in n.marks:
-            if m.type.name == "link" and (m.attrs.get("title") is not None or not isinstance(m.attrs.get("href"), str) or not m.attrs.get("href")):
+            if m.type.name == "link" and (m.attrs.get("title") is not None or not isinstance(m.attrs.get("href"), str)):
                 ok[0] = False
         return True
     doc.descendants(f)
